@@ -139,7 +139,7 @@ func c03(c *core.Ctx) {
 					return
 				}
 				ci := core.InfoOf(&call.Call)
-				if ci.Static == nil || sendsOnParam(ci.Static) < 0 {
+				if ci.Static == nil || !isInprocFrameWriter(ci.Static) {
 					return
 				}
 				for _, a := range call.Call.Args {
@@ -499,10 +499,17 @@ func c03Typestate(c *core.Ctx, nt *types.Named) {
 			if ci.Static == nil {
 				return
 			}
-			if sendsOnParam(ci.Static) >= 0 {
+			if isInprocFrameWriter(ci.Static) {
 				for _, a := range call.Call.Args {
 					if core.NamedOf(a.Type()) == "frame" && frameFieldValue(a, "data") != nil {
 						dataWrites = append(dataWrites, in)
+					}
+				}
+			} else {
+				for ai := range call.Call.Args {
+					if inprocDataWriteOfParam(ci.Static, ai, 0) {
+						dataWrites = append(dataWrites, in)
+						break
 					}
 				}
 			}
